@@ -7,7 +7,10 @@
      calls  = Clock.calls         (fire time, Addr number), kept sorted by time, ties in
                                   callLater order (list.sort is stable)
    An Addr has at most one pending call (self.expiry), so a call is identified by its Addr.
-   No proofs here. None = the line is outside the modelled envelope (the code raises). *)
+   Listeners are (number, behaviour) pairs: the behaviour (Spec.C20.beh) says what the harness's listener
+   object does inside addrmap_added / addrmap_expired; it acts only in callbacks made while no other
+   script is running (depth 0), in nested callbacks it only records the call.
+   No proofs here. None = outside the modelled envelope (the code raises, or the clock would loop). *)
 From Coq Require Import List Bool Ascii Arith NArith ZArith Lia.
 From TxVerif Require Import Lib.Bytes Spec.C20.
 Import ListNotations.
@@ -16,7 +19,7 @@ Open Scope N_scope.
 Record entry := { e_name : bytes; e_ip : bytes; e_exp : option Z }.
 
 Record mst := { dict : bytes -> option N; heap : N -> option entry; calls : list (Z * N);
-                now : Z; nid : N; lst : list N }.
+                now : Z; nid : N; lst : list (N * beh) }.
 
 Definition m0 : mst := {| dict := fun _ => None; heap := fun _ => None; calls := []; now := 0%Z; nid := 0; lst := [] |}.
 
@@ -47,16 +50,19 @@ Definition set_dict (s : mst) d := {| dict := d; heap := heap s; calls := calls 
 Definition set_heap (s : mst) h := {| dict := dict s; heap := h; calls := calls s; now := now s; nid := nid s; lst := lst s |}.
 Definition set_calls (s : mst) c := {| dict := dict s; heap := heap s; calls := c; now := now s; nid := nid s; lst := lst s |}.
 
-(* AddrMap.notify *)
-Definition notify_expired (s : mst) (n : bytes) : list obs := map (fun l => EExpired l n) (lst s).
-Definition notify_added (s : mst) (n ip : bytes) : list obs := map (fun l => EAdded l n ip) (lst s).
 
 Definition name_of (s : mst) (id : N) : bytes :=
   match hget id (heap s) with Some e => e_name e | None => [] end.
+Definition ip_of (s : mst) (id : N) : bytes :=
+  match hget id (heap s) with Some e => e_ip e | None => [] end.
+Definition lids (s : mst) : list N := map fst (lst s).
 
-(* Addr._expire *)
-Definition expire (s : mst) (id : N) : mst * list obs :=
-  (set_dict s (ddel_val id (dict s)), notify_expired s (name_of s id)).
+(* the call of AddrMap.notify that AddrMap.update / Addr._expire ends with (nothing follows it) *)
+Inductive note := NoNote | NExpired (n : bytes) | NAdded (id : N).
+
+(* Addr._expire: the keys go first, then notify("addrmap_expired", self.name) *)
+Definition expire (s : mst) (id : N) : mst * note :=
+  (set_dict s (ddel_val id (dict s)), NExpired (name_of s id)).
 
 (* ---- Addr.update ---- *)
 Definition tok_text_is (t : tok) (w : bytes) : bool := is_word t && beqb (t_pre t) w.
@@ -86,7 +92,7 @@ Definition strptime (t : tok) : option Z :=
   | _, _ => None
   end.
 
-Definition addr_update (s : mst) (id : N) (ts : list tok) : option (mst * list obs) :=
+Definition addr_update (s : mst) (id : N) (ts : list tok) : option (mst * note) :=
   match ts, pick_expiry ts with
   | a :: b :: _ :: _, Some g =>
       if is_word a && is_word b then
@@ -107,18 +113,18 @@ Definition addr_update (s : mst) (id : N) (ts : list tok) : option (mst * list o
               let s1 := set_heap s (hset id {| e_name := name; e_ip := ip; e_exp := ex |} (heap s)) in
               let cs := cancel_call id (calls s1) in
               match ex with
-              | None => Some (set_calls s1 cs, [])
+              | None => Some (set_calls s1 cs, NoNote)
               | Some x =>
                   (* callLater(max(0, expires - created).total_seconds(), self._expire) *)
-                  Some (set_calls s1 (insert_call (Z.max (now s) x, id) cs), [])
+                  Some (set_calls s1 (insert_call (Z.max (now s) x, id) cs), NoNote)
               end
           end
       else None
   | _, _ => None
   end.
 
-(* ---- AddrMap.update ---- *)
-Definition update (s : mst) (ts : list tok) : option (mst * list obs) :=
+(* ---- AddrMap.update up to its closing notify ---- *)
+Definition update_core (s : mst) (ts : list tok) : option (mst * note) :=
   match ts with
   | a :: b :: _ =>
       if is_word a && is_word b then
@@ -126,39 +132,19 @@ Definition update (s : mst) (ts : list tok) : option (mst * list obs) :=
         | Some id => addr_update s id ts
         | None =>
             (* elif params[1] != '<error>': an error mapping for an unknown name changes nothing *)
-            if beqb (t_pre b) w_ERROR then Some (s, []) else
+            if beqb (t_pre b) w_ERROR then Some (s, NoNote) else
             let id := nid s in
             let s1 := {| dict := dset (t_pre b) id (dset (t_pre a) id (dict s));
                          heap := hset id {| e_name := []; e_ip := []; e_exp := None |} (heap s);
                          calls := calls s; now := now s; nid := nid s + 1; lst := lst s |} in
             match addr_update s1 id ts with
-            | Some (s2, es) =>
-                match hget id (heap s2) with
-                | Some e => Some (s2, es ++ notify_added s2 (e_name e) (e_ip e))
-                | None => None
-                end
+            | Some (s2, _) => Some (s2, NAdded id)
             | None => None
             end
         end
       else None
   | _ => None
   end.
-
-(* ---- Clock.advance: while calls and calls[0].time <= now: pop(0) and run ---- *)
-Fixpoint fire_due (s : mst) (cs : list (Z * N)) : mst * list obs :=
-  match cs with
-  | [] => (set_calls s [], [])
-  | c :: cs' =>
-      if (fst c <=? now s)%Z then
-        let '(s1, e1) := expire (set_calls s cs') (snd c) in
-        let '(s2, e2) := fire_due s1 cs' in (s2, e1 ++ e2)
-      else (set_calls s cs, [])
-  end.
-
-Definition advance (s : mst) (dt : N) : mst * list obs :=
-  let s1 := {| dict := dict s; heap := heap s; calls := calls s; now := (now s + Z.of_N dt)%Z;
-               nid := nid s; lst := lst s |} in
-  fire_due s1 (calls s1).
 
 Definition find (s : mst) (k : bytes) : list obs :=
   match dget k (dict s) with
@@ -169,16 +155,130 @@ Definition find (s : mst) (k : bytes) : list obs :=
   | None => [ENotFound]
   end.
 
-Definition add_listener (s : mst) (l : N) : mst :=
+(* ---- AddrMap.notify ---- *)
+(* a call made while a listener's script is running: every listener only records it *)
+Definition passive (s : mst) (nt : note) : list obs :=
+  match nt with
+  | NoNote => []
+  | NExpired n => map ESub (expired_block (lids s) n)
+  | NAdded id => map ESub (added_block (lids s) (name_of s id) (ip_of s id))
+  end.
+
+(* the line a script feeds: '<name> <ip> NEVER'  or  '<name> <ip> "G" EXPIRES="G"' with
+   G = the current second + secs *)
+Definition wtok (b : bytes) : tok := {| t_pre := b; t_time := None |}.
+Definition feed_toks (nw : Z) (n ip : bytes) (x : fexp) : list tok :=
+  match x with
+  | FNever => [wtok n; wtok ip; wtok w_NEVER]
+  | FIn secs =>
+      let g := (8 * (nw / 8 + Z.of_N secs))%Z in
+      [wtok n; wtok ip; {| t_pre := []; t_time := Some g |}; {| t_pre := w_EXPIRES; t_time := Some g |}]
+  end.
+
+(* a listener's script, run inside the callback about name n; the bool: it raised *)
+Fixpoint run_script (s : mst) (n : bytes) (acts : list act) : option (mst * list obs * bool) :=
+  match acts with
+  | [] => Some (s, [], false)
+  | a :: r =>
+      match a with
+      | ARaise => Some (s, [ESub ERaised], true)
+      | AFindName =>
+          match run_script s n r with
+          | Some (s', es, b) => Some (s', map ESub (find s n) ++ es, b)
+          | None => None
+          end
+      | AFindKey k =>
+          match run_script s n r with
+          | Some (s', es, b) => Some (s', map ESub (find s k) ++ es, b)
+          | None => None
+          end
+      | AFeed ip x =>
+          match update_core s (feed_toks (now s) n ip x) with
+          | Some (s1, nt) =>
+              match run_script s1 n r with
+              | Some (s', es, b) => Some (s', passive s1 nt ++ es, b)
+              | None => None
+              end
+          | None => None
+          end
+      end
+  end.
+
+(* what listener l is called with, the name its script works on, which script *)
+Definition call_of (s : mst) (nt : note) (l : N) : option (obs * bytes * kind) :=
+  match nt with
+  | NoNote => None
+  | NExpired n => Some (EExpired l n, n, KExpired)
+  | NAdded id => Some (EAdded l (name_of s id) (ip_of s id), name_of s id, KAdded)   (* the Addr object *)
+  end.
+
+(* for listener in self.listeners: try: listener.method(args) except Exception: log.err()
+   -- a listener that raises ends its own script only; the loop goes on *)
+Fixpoint notify_top (ls : list (N * beh)) (s : mst) (nt : note) : option (mst * list obs) :=
+  match ls with
+  | [] => Some (s, [])
+  | lb :: r =>
+      match call_of s nt (fst lb) with
+      | None => Some (s, [])
+      | Some (hd, n, k) =>
+          match run_script s n (script_of k (snd lb)) with
+          | Some (s1, es, _) =>
+              match notify_top r s1 nt with
+              | Some (s2, es2) => Some (s2, hd :: es ++ es2)
+              | None => None
+              end
+          | None => None
+          end
+      end
+  end.
+
+(* ---- AddrMap.update, called by TorState or the test ---- *)
+Definition update (s : mst) (ts : list tok) : option (mst * list obs) :=
+  match update_core s ts with
+  | Some (s1, nt) => notify_top (lst s1) s1 nt
+  | None => None
+  end.
+
+(* ---- Clock.advance: while calls and calls[0].time <= now: pop(0) and run (no exception reaches it:
+   AddrMap.notify logs them).  The fuel is the
+   list of calls pending when time is advanced: scripts only schedule calls that are not yet due
+   (envelope), so it never runs out. ---- *)
+Fixpoint fire_due (fuel : list (Z * N)) (s : mst) : option (mst * list obs) :=
+  match calls s with
+  | [] => Some (s, [])
+  | c :: rest =>
+      if (fst c <=? now s)%Z then
+        match fuel with
+        | [] => None
+        | _ :: fuel' =>
+            let '(s1, nt) := expire (set_calls s rest) (snd c) in
+            match notify_top (lst s1) s1 nt with
+            | Some (s2, e1) =>
+                match fire_due fuel' s2 with
+                | Some (s3, e2) => Some (s3, e1 ++ e2)
+                | None => None
+                end
+            | None => None
+            end
+        end
+      else Some (s, [])
+  end.
+
+Definition advance (s : mst) (dt : N) : option (mst * list obs) :=
+  let s1 := {| dict := dict s; heap := heap s; calls := calls s; now := (now s + Z.of_N dt)%Z;
+               nid := nid s; lst := lst s |} in
+  fire_due (calls s1) s1.
+
+Definition add_listener (s : mst) (l : N) (b : beh) : mst :=
   {| dict := dict s; heap := heap s; calls := calls s; now := now s; nid := nid s;
-     lst := if memN l (lst s) then lst s else lst s ++ [l] |}.
+     lst := if memN l (lids s) then lst s else lst s ++ [(l, b)] |}.
 
 Definition step (s : mst) (o : op) : option (mst * list obs) :=
   match o with
   | OEv ts => update s ts
-  | OAdvance dt => Some (advance s dt)
+  | OAdvance dt => advance s dt
   | OFind k => Some (s, find s k)
-  | OAddL l => Some (add_listener s l, [])
+  | OAddL l b => Some (add_listener s l b, [])
   end.
 
 Fixpoint run_from (s : mst) (h : list op) : option (mst * list (list obs)) :=
